@@ -36,7 +36,7 @@ def bpf_alu_(obj, s, jt, jf, k):
     dst = env.A
     src = env.cst(k.int(-1), 32) if s == 0 else env.X
     # the flag is put on a copy: X is shared by the whole module
-    if obj.mnemonic in ("or", "and", "xor", "neg"):
+    if obj.mnemonic in ("or", "and", "xor", "neg", "div", "mod"):
         src = src.unsigned()
     else:
         src = src.signed()
